@@ -779,11 +779,42 @@ def _path_roots(pa, fi):
     return out
 
 
+def _opened_path(fi, base):
+    """if `base` is a local bound to `open(p, ...)` / `h5py.File(p, ...)`
+    (by `with ... as base` or by assignment), the expression p"""
+    if not isinstance(base, ast.Name):
+        return None
+    for n in ast.walk(fi.node):
+        call = None
+        if isinstance(n, ast.With):
+            for it in n.items:
+                if isinstance(it.optional_vars, ast.Name) \
+                        and it.optional_vars.id == base.id:
+                    call = it.context_expr
+        elif isinstance(n, ast.Assign) and len(n.targets) == 1 \
+                and isinstance(n.targets[0], ast.Name) \
+                and n.targets[0].id == base.id:
+            call = n.value
+        if isinstance(call, ast.Call) and call.args:
+            f = call.func
+            nm = f.id if isinstance(f, ast.Name) else getattr(
+                f, 'attr', None)
+            if nm in ('open', 'File'):
+                return call.args[0]
+    return None
+
+
 def _is_path_valued(pa, fi, e, path_roots):
     # projections to name / stem are not paths
     if isinstance(e, ast.Attribute) and e.attr in ('name', 'stem',
                                                    'suffix'):
-        return False
+        # ... of a pathlib.Path.  The `.name` of a *file object*
+        # (`open(p)`, `h5py.File(p)`) is the path it was opened with, in
+        # full: judged like the path handed to open()
+        opened = _opened_path(fi, e.value) if e.attr == 'name' else None
+        if opened is None:
+            return False
+        return _is_path_valued(pa, fi, opened, path_roots)
     o = pa.origins(fi, e)
     for (r, rel) in o:
         if rel.startswith('key:'):
